@@ -45,7 +45,66 @@ PidsUnique(s) ==
                               THEN s.by[p] \in Idx(s) /\ J(s, s.by[p]).pid = p
                               ELSE s.by[p] = None
 
+-----------------------------------------------------------------------------
+\* Job IDs (yash-env/src/job/id.rs module documentation and
+\* docs/src/interactive/job_control.md "Job IDs"): `%`, `%%`, `%+` the current
+\* job; `%-` the previous job; `%n` job number n (index n-1); `%name` the job
+\* whose name begins with name; `%?name` the job whose name contains name; a
+\* name matching more than one job is ambiguous; a string without the leading
+\* `%` is not a job ID.  Text crosses the boundary as sequences of
+\* one-character strings.  Results: index, -2 not found, -3 ambiguous, -4 not
+\* a job ID.
+NotFound == -2
+Ambiguous == -3
+NotAJobId == -4
+
+IsPrefixOf(p, n) == Len(p) <= Len(n) /\ SubSeq(n, 1, Len(p)) = p
+IsInfixOf(p, n)  == \E k \in 1..(Len(n) - Len(p) + 1) : SubSeq(n, k, k + Len(p) - 1) = p
+Digits == {"0", "1", "2", "3", "4", "5", "6", "7", "8", "9"}
+DigitVal(c) == CASE c = "0" -> 0 [] c = "1" -> 1 [] c = "2" -> 2 [] c = "3" -> 3 [] c = "4" -> 4
+                 [] c = "5" -> 5 [] c = "6" -> 6 [] c = "7" -> 7 [] c = "8" -> 8 [] c = "9" -> 9
+RECURSIVE NumVal(_)
+NumVal(t) == IF t = <<>> THEN 0 ELSE 10 * NumVal(SubSeq(t, 1, Len(t) - 1)) + DigitVal(t[Len(t)])
+
+OneOf(s, S) == IF S = {} THEN NotFound ELSE IF Cardinality(S) > 1 THEN Ambiguous ELSE CHOOSE i \in S : TRUE
+
+ResolveId(s, id) ==
+  IF id = <<>> \/ id[1] # "%" THEN NotAJobId
+  ELSE LET t == SubSeq(id, 2, Len(id))
+       IN IF t = <<>> \/ t = <<"%">> \/ t = <<"+">> THEN (IF s.cur = None THEN NotFound ELSE s.cur)
+          ELSE IF t = <<"-">> THEN (IF s.prev = None THEN NotFound ELSE s.prev)
+          ELSE IF t[1] = "?" THEN OneOf(s, {i \in Idx(s) : IsInfixOf(SubSeq(t, 2, Len(t)), J(s, i).name)})
+          ELSE IF (\A k \in 1..Len(t) : t[k] \in Digits) /\ NumVal(t) > 0
+               THEN (IF NumVal(t) - 1 \in Idx(s) THEN NumVal(t) - 1 ELSE NotFound)
+          ELSE OneOf(s, {i \in Idx(s) : IsPrefixOf(t, J(s, i).name)})
+
+\* the job IDs the harness resolves in every observed state, in its order (JOB_IDS in harness/c12)
+JobIds == << <<"%">>,
+            <<"%", "%">>,
+            <<"%", "+">>,
+            <<"%", "-">>,
+            <<"%", "1">>,
+            <<"%", "2">>,
+            <<"%", "3">>,
+            <<"%", "4">>,
+            <<"%", "5">>,
+            <<"%", "0">>,
+            <<"%", "a", "b">>,
+            <<"%", "a", "b", "c">>,
+            <<"%", "b">>,
+            <<"%", "c">>,
+            <<"%", "?", "a", "b">>,
+            <<"%", "?", "c">>,
+            <<"%", "?", "x">>,
+            <<"%", "?", "z", "z">>,
+            <<"%", "z">>,
+            <<"a", "b">> >>
+
+IdsResolve(s) == /\ Len(s.ids) = Len(JobIds)
+                 /\ \A k \in 1..Len(JobIds) : s.ids[k] = ResolveId(s, JobIds[k])
+
 Consistent(s) ==
+  /\ IdsResolve(s)
   /\ WellFormed(s) /\ NonEmptyHasCurrent(s) /\ EmptyHasNone(s) /\ TwoHavePrevious(s)
   /\ OneHasNoPrevious(s) /\ PrevIsAJob(s) /\ CurrentIsSuspended(s) /\ PreviousIsSuspended(s)
   /\ PidsUnique(s)
@@ -61,6 +120,9 @@ Untouched(pre, post, except) ==
 StableNumbers(pre, post) ==
   \A i \in Idx(pre) : \A k \in Idx(post) : J(post, k).pid = J(pre, i).pid => k = i
 
+\* equality of observed states; the resolved job IDs are logged for post-states
+\* only and are judged by IdsResolve
+SameState(a, b) == [a EXCEPT !.ids = <<>>] = [b EXCEPT !.ids = <<>>]
 SameSelection(pre, post) == post.cur = pre.cur /\ post.prev = pre.prev
 SameLast(pre, post)      == post.last = pre.last
 
@@ -82,7 +144,8 @@ Insert(pre, op, res, post) ==
       newS == op.s = "S"
   IN /\ k >= 0 /\ k \notin base                                  \* "a unique index"
      /\ Idx(post) = base \cup {k}
-     /\ J(post, k) = [i |-> k, pid |-> p, st |-> op.s, ch |-> TRUE, ex |-> "N", own |-> TRUE]
+     /\ LET j == J(post, k)
+        IN j.i = k /\ j.pid = p /\ j.st = op.s /\ j.ch = TRUE /\ j.ex = "N" /\ j.own = TRUE
      /\ Untouched(pre, post, {old, k})
      /\ SameLast(pre, post)
      \* selection, as the doc comment of insert states it
@@ -109,7 +172,7 @@ Remove(pre, op, res, post) ==
   /\ SameLast(pre, post)
   /\ IF op.i \in Idx(pre)
      THEN res = J(pre, op.i).pid /\ RemoveOne(pre, op.i, post)
-     ELSE res = None /\ post = pre
+     ELSE res = None /\ SameState(pre, post)
 
 \* remove_if / extract_if: the selected jobs are gone, nothing else changes;
 \* the selection afterwards is constrained by the invariants, and is unchanged
@@ -130,7 +193,7 @@ RemoveFinished(pre, op, res, post) == RemoveSet(pre, {i \in Idx(pre) : Finished(
 Update(pre, op, res, post) ==
   /\ SameLast(pre, post)
   /\ IF op.p \notin PidOf(pre)
-     THEN res = None /\ post = pre
+     THEN res = None /\ SameState(pre, post)
      ELSE LET i == pre.by[op.p]
               j == J(pre, i)
               was == Susp(j)
@@ -153,21 +216,21 @@ Update(pre, op, res, post) ==
 \* JobList::set_current_job
 SetCurrent(pre, op, res, post) ==
   /\ SameLast(pre, post) /\ post.jobs = pre.jobs /\ post.by = pre.by /\ post.len = pre.len
-  /\ IF op.i \notin Idx(pre) THEN res = "nosuch" /\ post = pre
-     ELSE IF ~Susp(J(pre, op.i)) /\ SuspIdx(pre) # {} THEN res = "notsusp" /\ post = pre
+  /\ IF op.i \notin Idx(pre) THEN res = "nosuch" /\ SameState(pre, post)
+     ELSE IF ~Susp(J(pre, op.i)) /\ SuspIdx(pre) # {} THEN res = "notsusp" /\ SameState(pre, post)
      ELSE /\ res = "ok"
           /\ post.cur = op.i
           /\ IF op.i = pre.cur THEN post.prev = pre.prev ELSE post.prev = pre.cur
 
 Report(pre, op, res, post) ==
   /\ SameLast(pre, post) /\ SameSelection(pre, post)
-  /\ IF op.i \notin Idx(pre) THEN res = "nosuch" /\ post = pre
+  /\ IF op.i \notin Idx(pre) THEN res = "nosuch" /\ SameState(pre, post)
      ELSE /\ res = "ok" /\ Idx(post) = Idx(pre) /\ Untouched(pre, post, {op.i})
           /\ J(post, op.i) = [J(pre, op.i) EXCEPT !.ch = FALSE]
 
 Expect(pre, op, res, post) ==
   /\ SameLast(pre, post) /\ SameSelection(pre, post)
-  /\ IF op.i \notin Idx(pre) THEN res = "nosuch" /\ post = pre
+  /\ IF op.i \notin Idx(pre) THEN res = "nosuch" /\ SameState(pre, post)
      ELSE /\ res = "ok" /\ Idx(post) = Idx(pre) /\ Untouched(pre, post, {op.i})
           /\ J(post, op.i) = [J(pre, op.i) EXCEPT !.ex = op.s]
 
@@ -176,7 +239,7 @@ DisownAll(pre, op, res, post) ==
   /\ \A i \in Idx(pre) : J(post, i) = [J(pre, i) EXCEPT !.own = FALSE]
 
 SetLastAsync(pre, op, res, post) ==
-  /\ post = [pre EXCEPT !.last = op.p]
+  /\ SameState([pre EXCEPT !.last = op.p], post)        \* $! = the value set; nothing else (incl. every job ID) changes
 
 Step(pre, op, res, post) ==
   /\ Consistent(post)
